@@ -25,10 +25,11 @@ type behaviour struct {
 	Cfg struct {
 		MaxDiff   int    `json:"maxDiff"`
 		HistLimit uint64 `json:"histLimit"`
+		Pol       string `json:"pol"`
+		Async     bool   `json:"async"`
 	} `json:"cfg"`
 	NAcc  int              `json:"nacc"`
 	NSlot int              `json:"nslot"`
-	Pol   []string         `json:"pol"`
 	Acts  []map[string]any `json:"acts"`
 }
 
@@ -45,18 +46,19 @@ func ints(v any) []int {
 func runSim(in, tracePath, scratch string, sum *tl.Summary) {
 	var bs []behaviour
 	tl.ReadJSON(in, &bs)
-	tr := tl.NewTrace(tracePath)
+	tr := pdb.NewTrace(tracePath)
 	defer tr.Close()
 	seen := map[string]bool{}
 	for bi, b := range bs {
 		for variant := 0; variant < 2; variant++ {
 			cfg := pdb.Config{MaxDiff: b.Cfg.MaxDiff, HistLimit: b.Cfg.HistLimit, BufSize: 1 << 22, CleanCache: 1 << 20}
-			if len(b.Pol) == 1 && b.Pol[0] == "always" {
+			if b.Cfg.Pol == "always" {
 				cfg.BufSize = 0
 			}
-			// variant 1: Cancun rules (raw storage keys), async flush, trienode history on
+			cfg.Async = b.Cfg.Async
+			// variant 1: Cancun rules (raw storage keys), trienode history on, no clean caches
 			if variant == 1 {
-				cfg.Cancun, cfg.Async, cfg.Trienode, cfg.CleanCache = true, true, true, 0
+				cfg.Cancun, cfg.Trienode, cfg.CleanCache = true, true, 0
 			}
 			shape := pdb.Shape{NAcc: b.NAcc, NSlot: b.NSlot}
 			rn, err := pdb.NewRunner(shape, cfg, filepath.Join(scratch, fmt.Sprintf("sim-%d-%d", bi, variant)), tr, sum, tl.Rand(int64(bi)))
@@ -113,6 +115,9 @@ func runSim(in, tracePath, scratch string, sum *tl.Summary) {
 					}
 					rn.Reopen(i)
 				case "Restart":
+					if !rn.RestartCovered() {
+						break acts // the model never schedules this (guard of Restart)
+					}
 					rn.Restart()
 				default:
 					tl.Fatal("unknown op %v", a["op"])
@@ -133,13 +138,13 @@ func runSim(in, tracePath, scratch string, sum *tl.Summary) {
 		}
 	}
 	sum.Steps = tr.N
-	sum.Rule = "every TLC-generated behaviour (action sequence of MCPathDBHist) is executed on a fresh real database in two variants (pre-Cancun/sync flush, Cancun/async flush/trienode history); distinct = distinct (configuration, action sequence)"
+	sum.Rule = "every TLC-generated behaviour (action sequence of MCPathDBHist) is executed on a fresh real database in two variants (pre-Cancun rules with clean caches, Cancun rules with trienode history); distinct = distinct (configuration, action sequence)"
 }
 
 // runRandom records seeded random histories under random configurations.
 func runRandom(tracePath, scratch string, seed int64, ntraces, steps int, sum *tl.Summary) {
 	r := tl.Rand(seed)
-	tr := tl.NewTrace(tracePath)
+	tr := pdb.NewTrace(tracePath)
 	defer tr.Close()
 	shapes := map[string]bool{}
 	for t := 0; t < ntraces; t++ {
@@ -198,6 +203,9 @@ func runRandom(tracePath, scratch string, seed int64, ntraces, steps int, sum *t
 				rn.Reopen(r.Intn(top + 1))
 				sig += "O"
 			default:
+				if !rn.RestartCovered() {
+					continue // stale journal after a rollback: crash consistency of that case is C20
+				}
 				rn.Restart()
 				sig += "X"
 			}
@@ -227,10 +235,7 @@ func main() {
 	flag.Parse()
 	seed := int64(tl.EnvInt("VERIF_SEED", 1))
 	sum := tl.NewSummary("c17", *mode, seed)
-	scratch, err := os.MkdirTemp(".", "c17-")
-	if err != nil {
-		tl.Fatal("scratch: %v", err)
-	}
+	scratch := pdb.ScratchDir("verif-c17-")
 	defer os.RemoveAll(scratch)
 	switch *mode {
 	case "sim":
